@@ -14,6 +14,7 @@ import FastTicc.Model.Numeric
 import FastTicc.Model.Heap
 import FastTicc.Model.Run
 import FastTicc.Model.Final
+import FastTicc.Model.FrontEnd
 
 open FastTicc FastTicc.Proto
 
@@ -177,6 +178,25 @@ def replayFit (T d K m limit : Nat) (half nwl logT thr : Rat) (biased : Bool) (b
       showRat rep.agg.total, showRat rep.agg.mean, showRat rep.agg.median, showRats rep.agg.clusterMean,
       showRats rep.agg.clusterMedian, toString rep.params, showRat rep.bic, showRat rep.ch,
       showNats o.final.fitted]
+  | .error e => s!"err {e}"
+
+/-- front-end replay: raw series in, per-series padded label lists out (`FrontEnd.single` / `FrontEnd.joint`).
+Output: `ok rounds labelLists cost total bic ch`. -/
+def replayFront (isJoint masked : Bool) (W K m limit : Nat) (half nwl logT thr : Rat) (biased : Bool)
+    (betas : List Rat) (series : List (List (List Rat))) (init : List Nat) (rounds : List RoundOracle) : String :=
+  let a : FrontEnd.Args Rat := ⟨W, K, m, limit, fun i => betas.getD i 0, biased, half, logT, thr, nwl⟩
+  let get (r : Nat) : RoundOracle := rounds.getD r ⟨[], [], [], [], []⟩
+  let orc : Run.Oracles Rat :=
+    { theta := fun r k i j => (((get r).thetas.getD k []).getD i []).getD j 0
+      logDet := fun r k => (get r).logdets.getD k 0
+      spread := fun r k => (get r).spreads.getD k 0
+      order := fun r => (get r).order
+      pick := fun r => Repop.pickOfRecorded m (get r).picks }
+  let res := if isJoint then FrontEnd.joint masked a orc init series
+             else FrontEnd.single a orc init (series.headD [])
+  match res with
+  | .ok o => " ".intercalate [s!"ok {o.report.rounds}", showIntss o.labels, showRat o.report.cost,
+      showRat o.report.agg.total, showRat o.report.bic, showRat o.report.ch]
   | .error e => s!"err {e}"
 
 def bad : String := "bad-op"
@@ -386,6 +406,14 @@ def step (line : String) : String :=
       let betas ← parseRats? betas; let data ← parseRatss? data; let init ← parseNats? init
       let rs ← (splitList rounds "@").mapM parseRound?
       pure (replayFit T d K m limit half nwl logT thr (biased != 0) betas data init rs)
+  | ["replayfront", jn, msk, W, K, m, limit, half, nwl, logT, thr, biased, betas, series, init, rounds] => opt do
+      let jn ← parseNat? jn; let msk ← parseNat? msk
+      let W ← parseNat? W; let K ← parseNat? K; let m ← parseNat? m; let limit ← parseNat? limit
+      let half ← parseRat? half; let nwl ← parseRat? nwl; let logT ← parseRat? logT; let thr ← parseRat? thr
+      let biased ← parseNat? biased
+      let betas ← parseRats? betas; let series ← parseListWith parseRatss? "|" series; let init ← parseNats? init
+      let rs ← (splitList rounds "@").mapM parseRound?
+      pure (replayFront (jn != 0) (msk != 0) W K m limit half nwl logT thr (biased != 0) betas series init rs)
   -- ---------------------------------------------------------------- C08
   | ["repop", K, m, spreads, order, recorded, labels] => opt do
       let K ← parseNat? K; let m ← parseNat? m
